@@ -334,7 +334,7 @@ func init() {
 	core.Register(&core.Prop{
 		ID:    "C02",
 		Level: "exploration",
-		Rule: "edit histories: random initial tree -> sync -> 1-6 random edits (rewrite same/other size, touch, chmod, chown, delete, add, rename, file<->dir<->symlink swap, link/unlink, device renumber, retarget, xattr-only) or a single targeted edit -> sync, 2-3 rounds, last round optionally without edits, differ in {metadata, none}; the REQ ids in the packet log are mapped to paths through the STAT sequence and compared with the set computed by the identity model; inode and bytes of every untouched entry are compared before/after. " +
+		Rule: "Edits include re-targeting a symlink to another spelling of the same path with the time stamp kept; a third of the synthetic histories announce size 0 for symlinks. edit histories: random initial tree -> sync -> 1-6 random edits (rewrite same/other size, touch, chmod, chown, delete, add, rename, file<->dir<->symlink swap, link/unlink, device renumber, retarget, xattr-only) or a single targeted edit -> sync, 2-3 rounds, last round optionally without edits, differ in {metadata, none}; the REQ ids in the packet log are mapped to paths through the STAT sequence and compared with the set computed by the identity model; inode and bytes of every untouched entry are compared before/after. " +
 			"non-trivial = a round with at least one edit that must trigger a transfer and at least one entry that must stay untouched, or an unchanged re-sync of a tree with files; distinct by history fingerprint",
 		Assumptions: []string{"root", "the hard-link timing exception is encoded as: an entry that was a link member whose named member is deleted or replaced in this sync and whose own identity is otherwise equal may be transferred or not"},
 		Cases: func(tier string) int {
